@@ -153,6 +153,12 @@ def mkBody? (fps : Fps) (frames people points dims : Nat) (db cb : Bytes) : Opti
          data := getF32s (frames * people * points * dims) db,
          conf, missing := conf.map F32.isZero }
 
+/-- the two blocks of a v0.1 / v0.2 body (coordinates, then confidences), each read through `read_v0_1_frames` with the same window, and the NumPy constructor -/
+def rdBlocks (fps : Fps) (frames people points dims : Nat) (s e : Option Int) : Prog Body :=
+  Prog.bind (readFrames frames (people * points * dims * 4) s e) fun d =>
+  Prog.bind (readFrames frames (people * points * 4) s e) fun c =>
+  Prog.ofOption (mkBody? fps d.1 people points dims d.2 c.2)
+
 def rdBodyV02 (h : Header) (w : Window) : Prog Body :=
   if w.conflict then .fail else
   Prog.bind rdF32 fun fps =>
@@ -160,24 +166,17 @@ def rdBodyV02 (h : Header) (w : Window) : Prog Body :=
   Prog.bind rdU16 fun people =>
   Prog.bind (Prog.ofOption h.numDims?) fun dims =>
   Prog.bind (Prog.ofOption (w.resolve fps)) fun se =>
-  let points := h.totalPoints
-  Prog.bind (readFrames frames (people * points * dims * 4) se.1 se.2) fun d =>
-  Prog.bind (readFrames frames (people * points * 4) se.1 se.2) fun c =>
-  Prog.ofOption (mkBody? (.f32 fps) d.1 people points dims d.2 c.2)
+  rdBlocks (.f32 fps) frames people h.totalPoints dims se.1 se.2
 
-/-- `read_v0_1`: the on-disk frame count is ignored, the count comes from the payload size; time bounds are ignored -/
+/-- `read_v0_1`: the on-disk frame count is ignored, the count comes from the payload size (`file_bytes_left`); time bounds are ignored -/
 def rdBodyV01 (h : Header) (w : Window) : Prog Body :=
   Prog.bind rd2U16 fun ff =>
   Prog.bind rdU16 fun people =>
   Prog.bind (Prog.ofOption h.numDims?) fun dims =>
-  let points := h.totalPoints
-  let denom := people * points * (dims + 1) * 4
+  let denom := people * h.totalPoints * (dims + 1) * 4
   if denom = 0 then .fail else
   .fileLeft fun left =>
-  let frames := (left / denom).toNat
-  Prog.bind (readFrames frames (people * points * dims * 4) w.startFrame w.endFrame) fun d =>
-  Prog.bind (readFrames frames (people * points * 4) w.startFrame w.endFrame) fun c =>
-  Prog.ofOption (mkBody? (.int ff.1) d.1 people points dims d.2 c.2)
+  rdBlocks (.int ff.1) (left / denom).toNat people h.totalPoints dims w.startFrame w.endFrame
 
 /-! ### v0.0: people lists per frame, interleaved X,Y,C; only the first person is kept -/
 
